@@ -10,6 +10,8 @@ pending = {}
 pfile = os.path.join(HERE, "tools", "not_claimed.json")
 if os.path.exists(pfile):
     pending = json.load(open(pfile))
+# only properties reviewed and integrated by the lead are claimed
+claimed = set(json.load(open(os.path.join(HERE, "tools", "claimed.json"))))
 
 checks, na = [], []
 for pid in props:
@@ -20,7 +22,7 @@ for pid in props:
         for node in tree.body:
             if isinstance(node, ast.Assign) and getattr(node.targets[0], "id", "") == "MANIFEST":
                 meta = ast.literal_eval(node.value)
-    if meta is None or pid in pending:
+    if meta is None or pid in pending or pid not in claimed:
         na.append({"property_id": pid,
                    "reason": pending.get(pid, "check not built yet in this round (design in DESIGN.md section 6); not claimed")})
         continue
